@@ -50,9 +50,12 @@ def seed_of(base, i):
 
 SWEEP_EVERY = 9
 REPEAT_EVERY = 16
+PARAMS_EVERY = 11
 
 
 def gen(seed, wl, wl_full, full_every):
+    if seed % PARAMS_EVERY == 7:
+        return history.gen_param_walk(seed, wl)
     if seed % REPEAT_EVERY == 5:
         return history.gen_repeat(seed, wl)
     if seed % SWEEP_EVERY == 3:
